@@ -62,6 +62,8 @@ theorem ignored_done (r : Res) : Ignored (.op .done r) := fun _ => by cases r <;
 theorem ignored_runBegin : Ignored .runBegin := fun _ => rfl
 theorem ignored_cbEnd (rc : Int) : Ignored (.cbEnd rc) := fun _ => rfl
 theorem ignored_ret (rc : Int) : Ignored (.ret rc) := fun _ => rfl
+theorem ignored_spinBegin : Ignored .spinBegin := fun _ => rfl
+theorem ignored_spinRet (rc : Int) : Ignored (.spinRet rc) := fun _ => rfl
 theorem ignored_fault : Ignored .fault := fun _ => rfl
 
 theorem adm_emit {s s' : State} (h : Adm s) (e : Ev) (he : Ignored e) (ht : s'.trace = e :: s.trace) : Adm s' := by
@@ -520,6 +522,33 @@ theorem eventsRun_weak (C : TQContract) (fuel : Nat) (s : State) (h : Good C s) 
     · rw [if_neg hf1]
       exact weak_ignored h1 _ (ignored_ret rc) rfl rfl rfl rfl rfl rfl rfl rfl
 
+/-- the loop of `events_spin`: every turn is an `events_run_internal` -/
+theorem spinLoop_weak (C : TQContract) (fuel : Nat) : ∀ (n : Nat) (s : State) (rc : Int), Weak C s →
+    Weak C (spinLoop fuel n s rc).1 := by
+  intro n
+  induction n with
+  | zero => intro s rc h; exact weak_faulted C h.adm
+  | succ n ih =>
+    intro s rc h
+    unfold spinLoop
+    by_cases hc : s.done = false ∧ rc = 0 ∧ s.intr = false ∧ s.fault = false
+    · rw [if_pos hc]
+      rcases h with hg | ⟨hf, _⟩
+      · exact ih _ _ (runInternal_weak C fuel s hg)
+      · rw [hc.2.2.2] at hf; cases hf
+    · rw [if_neg hc]; exact h
+
+theorem eventsSpin_weak (C : TQContract) (fuel : Nat) (s : State) (h : Good C s) : Weak C (eventsSpin fuel s) := by
+  unfold eventsSpin
+  dsimp only
+  have h0 : Good C (emit { s with cbcount := 0 } .spinBegin) :=
+    good_ignored h _ ignored_spinBegin h.1 rfl rfl rfl rfl rfl rfl rfl
+  have h1 := spinLoop_weak C fuel spinFuel _ 0 (Or.inl h0)
+  by_cases hf1 : (spinLoop fuel spinFuel (emit { s with cbcount := 0 } .spinBegin) 0).1.fault = true
+  · rw [if_pos hf1]; exact h1
+  · rw [if_neg hf1]
+    exact weak_ignored h1 _ (ignored_spinRet _) rfl rfl rfl rfl rfl rfl rfl rfl
+
 theorem stepTop_weak (C : TQContract) (fuel : Nat) (s : State) (t : Top) (h : Weak C s) : Weak C (stepTop fuel s t) := by
   cases t with
   | api o =>
@@ -544,6 +573,13 @@ theorem stepTop_weak (C : TQContract) (fuel : Nat) (s : State) (t : Top) (h : We
     · have hf' : s.fault = false := by simpa using hf
       simp only [hf', Bool.false_eq_true, if_false]
       exact eventsRun_weak C fuel s (good_of_weak h hf')
+  | spin =>
+    show Weak C (if s.fault then s else eventsSpin fuel s)
+    by_cases hf : s.fault = true
+    · simp only [hf, if_true]; exact h
+    · have hf' : s.fault = false := by simpa using hf
+      simp only [hf', Bool.false_eq_true, if_false]
+      exact eventsSpin_weak C fuel s (good_of_weak h hf')
 
 theorem rel_init (C : TQContract) : Rel C {} {} := by
   refine ⟨by simp [KeysNodup], rfl, ⟨[], rq_init, by simp [IdsNodup], by simp [lookup]⟩, ⟨inv_init, ?_, ?_, ?_⟩, ⟨⟨C.empty, by simp, by simp, ?_, by simp, by simp⟩, ?_, ?_⟩⟩
